@@ -226,8 +226,14 @@ def judgeKex (o i : Op) : String :=
     let mode := o.str "mode"
     if !(mode == "rr" || mode == "pc" || mode == "ps") then "bad-op" else
     let x : Ctx := ⟨mode, cm, sm, i.str "c", i.str "s", hc, kc, hs, ks, pk, okv, omk, oxk⟩
+    -- `oks`: the peer knows only that the secret is one of several values; one of them must explain the observable
+    let alts : List Bytes := match i.get? "oks" with
+      | none => []
+      | some a => (hexList a).getD []
     let r := firstErr [
-      fun _ => judgeMethod x m,
+      fun _ => if alts.isEmpty then judgeMethod x m
+        else if alts.any (fun a => (judgeMethod { x with okv := some a } m).isNone) then none
+        else some "no candidate secret explains the observable",
       -- both real sides: same K; same H exactly when they hashed the same magics
       fun _ => if mode == "rr" && x.c == "ok" && x.s == "ok" then
           first [need (kc == ks) "client and server K differ",
